@@ -102,10 +102,12 @@ def remove_redundant_chained_calls(source: str) -> str:
     )
 
     for node in core.walk(root, templates):
+        if node.keywords and node.args[0].func.id == "reversed":
+            # sorted(reversed(x), key=...) orders ties differently than sorted(x, key=...)
+            continue
+        # Longer chains are reduced one call at a time, by the repeated application of this fix
         arg = node.args[0].args[0]
-        while core.match_template(arg, templates):
-            arg = arg.args[0].args[0]
-        yield node, ast.Call(func=node.func, args=[arg], keywords=[])
+        yield node, ast.Call(func=node.func, args=[arg], keywords=node.keywords)
 
     # If inner is present, outer is redundant
     inner_outer_redundancy_mapping = {
